@@ -65,7 +65,8 @@ def confirm(mdir):
         with open(demo, "w") as f:
             f.write(src)
         rc, out = sh(["cargo", "test", "--offline", "--test", "demo"], cwd=wt, env=env)
-        res["demo_fails_with_patch"] = rc != 0 and "test result: FAILED" in out
+        # a failing assertion, or the test process dying (abort from an unsafe-precondition check)
+        res["demo_fails_with_patch"] = rc != 0 and "could not compile" not in out and ("test result: FAILED" in out or "signal" in out or "process didn't exit successfully" in out)
         if rc == 0:
             res["demo_with_patch_output"] = out[-800:]
     finally:
